@@ -2,6 +2,6 @@ SPECIFICATION Spec
 CHECK_DEADLOCK FALSE
 INVARIANTS
   Complete
-  I_SingleFlight I_BurstCostsOne I_NoEarlyRelease I_NoUntimelyPublish I_HitServed I_LabelTruth I_OnlyStoredIsShared I_KeyMatch
+  I_SingleFlight I_BurstCostsOne I_NoEarlyRelease I_NoUntimelyPublish I_StoreMatchesKey I_HitServed I_LabelTruth I_OnlyStoredIsShared I_KeyMatch
   I_HitFresh I_AgeTruth I_RefetchAfterExpiry I_HfpPass I_HfpNeverCached I_HfpLapses
   I_PurgeEffective I_BadRecordIsMiss I_NoOwnError I_NoStuck
